@@ -135,8 +135,12 @@ def cases(ctx):
         out.append({"kind": "valid", "rom": rom, "mapping": rom, "src": src, "format": fmt, "api": True, "cli": i < 12,
                     "copier": False, "count_empty": True, "spec": {"t": "c14", "must_fail": False}})
     # writer-level failures: the assembly is fine but the patch cannot hold the block
-    out.append({"kind": "fault:ips-sentinel", "rom": "high", "mapping": "high", "format": "ips", "api": True, "cli": True,
-                "src": "*=0x854f46\n.db 1, 2\n", "count_empty": True, "spec": {"t": "c14", "must_fail": False}, "corr": True})
+    # (an offset whose three bytes read 'EOF' is out of reach of the built-in mappings; with a user .map the assembly is
+    #  fine in memory and the IPS writer refuses the block: the file API raises, the command line exits 1.  That is the
+    #  documented domain limit of the oracle (C14_oracle_domain), so this case is compared with the model only.)
+    out.append({"kind": "writer-refusal:ips-sentinel", "rom": None, "mapping": None, "format": "ips", "api": True, "cli": False,
+                "src": ".map identifier=1 bank_range=0x00,0xff addr_range=0,0xffff mask=0x10000\n*=0x454f46\n.db 1, 2\n",
+                "count_empty": True, "spec": {"t": "none"}, "corr": True})
     out.append({"kind": "empty-source", "rom": "low", "mapping": "low", "format": "ips", "api": True, "cli": True, "src": "",
                 "count_empty": True, "spec": {"t": "c14", "must_fail": False}})
     return out
